@@ -5,6 +5,7 @@ pyiga/solvers.py (exec'd from source): gauss_seidel, OperatorSmoother, GaussSeid
 SequentialSmoother, twogrid, local_mg_step, iterative_solve.
 """
 import itertools, json, sys, types
+from fractions import Fraction as F
 import numpy as np
 import z3
 
@@ -322,6 +323,68 @@ def localmg_harness(ns, nf, nc, smoother, inds_f, inds_c):
     return run
 
 
+def localmg_energy_harness(ns, nf, nc, inds_f, inds_c):
+    """one local multigrid cycle with exact subspace solves on a symbolic SPD system (A = L L^T, diag(L) > 0) from an arbitrary iterate:
+    the energy norm of the error does not increase.  Each exact solve is accompanied by two lemmas that are PROVED on the path before
+    they are used (orthogonality y.(By - r) = 0, and y.By >= 0); the final inequality is then a linear combination of them and is decided
+    by the linear relaxation (symx/linrelax.py)."""
+    def run(c):
+        L = np.empty((nf, nf), dtype=object); L[...] = 0
+        for i in range(nf):
+            for j in range(i + 1): L[i, j] = Sym(z3.Real('l_%d_%d' % (i, j)))
+            c.assume(lift(L[i, i]) > 0)
+        A = L.dot(L.T)
+        P = interp_P(nf, nc)
+        xs = sx.symarray('xs', (nf,)); e = sx.symarray('e', (nf,))
+        f = A.dot(xs)
+        hs = _NS(numlevels=2)
+        log = []
+        class Rec(SolverStub):
+            def dot(self, r):
+                y = SolverStub.dot(self, r); log.append((self.B, y, np.asarray(r, dtype=object).ravel())); return y
+            __matmul__ = dot; __mul__ = dot
+        g = ns['local_mg_step'].__globals__
+        old = g['make_solver']; g['make_solver'] = lambda B, symmetric=False, spd=False: Rec(B)
+        try:
+            step = ns['local_mg_step'](hs, SpMat(A, 'csr'), f, [SpMat(P, 'csr')], [np.array(inds_c, dtype=np.intc), np.array(inds_f, dtype=np.intc)], smoother='exact', smooth_steps=1)
+            y = np.asarray(step(xs + e), dtype=object)
+        finally:
+            g['make_solver'] = old
+        for (B, yy, r) in log:
+            By = B.dot(yy)
+            orth = sum((yy[i] * (By[i] - r[i]) for i in range(len(yy))), 0)
+            if c.check(lift(orth) == 0, 'lemma: y.(B y - r) = 0 for an exact solve') == 'unsat': c.assume(lift(orth) == 0)
+            q = yy.dot(By)
+            if c.check(lift(q) >= 0, 'lemma: y.B y >= 0 (the matrix handed to the exact solver is positive semidefinite on the correction)') == 'unsat': c.assume(lift(q) >= 0)
+        en = y - xs
+        c.check(lift(en.dot(A.dot(en))) <= lift(e.dot(A.dot(e))), 'local multigrid cycle with exact subspace solves does not increase the energy norm of the error')
+        c.witness('localmg energy')
+    return run
+
+
+REPLAY_ENERGY = r'''
+import sys, json, numpy as np, scipy.sparse, types
+from fractions import Fraction as F
+w = json.load(sys.stdin)
+from pyiga import solvers
+nf, nc = w['nf'], w['nc']
+P = np.array([[float(F(v)) for v in row] for row in w['P']])
+bad = []
+rng = np.random.RandomState(4)
+cases = []
+if w.get('L'): cases.append((np.array([[float(F(v)) for v in row] for row in w['L']]), np.array([float(F(v)) for v in w['xs']]), np.array([float(F(v)) for v in w['e']])))
+for _ in range(6):
+    L = np.tril(rng.rand(nf, nf)) + np.eye(nf); cases.append((L, rng.rand(nf), rng.randn(nf)))
+for L, xs, e in cases:
+    A = L @ L.T
+    hs = types.SimpleNamespace(numlevels=2)
+    step = solvers.local_mg_step(hs, scipy.sparse.csr_matrix(A), A @ xs, [scipy.sparse.csr_matrix(P)], [np.array(w['inds_c'], dtype=np.intc), np.array(w['inds_f'], dtype=np.intc)], smoother='exact', smooth_steps=1)
+    y = step(xs + e); en = y - xs
+    if en @ A @ en > e @ A @ e * (1 + 1e-10) + 1e-14: bad.append('energy %.6g -> %.6g' % (e @ A @ e, en @ A @ en))
+print(json.dumps({'reproduced': bool(bad), 'bad': bad[:4]}))
+'''
+
+
 REPLAY_GS = r'''
 import sys, json, numpy as np, scipy.sparse
 w = json.load(sys.stdin)
@@ -384,7 +447,7 @@ def main():
     run.assumptions += ['reals for doubles', 'nonzero diagonal (documented precondition)', 'CSR without duplicate entries', 'energy claim: symmetric matrix with a_ii > 0 for the updated row '
                         '(a sweep is a sequence of such steps, so the claim extends to any sweep/iteration count on SPD systems)']
     run.out_of_scope += ['convergence rates; "twogrid converges"', 'solve_hmultigrid end to end', 'real hierarchical spaces (smoothing sets, prolongators): thorough tier / C03-C05',
-                         'energy contraction of a whole multigrid cycle']
+                         'energy non-increase of cycles with Gauss-Seidel smoothers (only the cycle with exact subspace solves is decided)']
     run.bounds = {'matrix size': 'n = 3 (quick), 4 (thorough)', 'structures': 'dense/tridiagonal/arrow/triangular incl. unsorted column indices',
                   'iterations': '<= 2', 'index lists': 'arbitrary sequences of length <= 3 (with repetition)', 'drivers': 'maxiter <= 3'}
     n = 4 if thorough else 3
@@ -435,6 +498,19 @@ def main():
                 run.absorb(st, 'local-multigrid-fixed-point', bound=bound, sample={'obligation': 'local_mg_step fixed point', **bound})
                 for cex in st.cex:
                     run.report('local_mg_step:%s' % smoother, 'local_mg_step(%s) moves the exact solution: %s' % (smoother, cex['name']), {'kind': 'localmg', **bound}, True)
+    if run.want('localmg'):
+        ecfg = [(2, 1, [1], [0]), (3, 2, [0, 2], [0, 1]), (3, 1, [1, 2], [0])] + ([(3, 2, [0, 1, 2], [1]), (4, 2, [1, 3], [0, 1])] if thorough else [])
+        for (nf, nc, inf_, inc) in ecfg:
+            st = sx.explore(localmg_energy_harness(ns, nf, nc, inf_, inc), timeout_ms=60000, lin_relax=True)
+            bound = {'nf': nf, 'nc': nc, 'fine set': inf_, 'coarse set': inc, 'smoother': 'exact'}
+            run.absorb(st, 'local-multigrid-energy', bound=bound, sample={'obligation': 'energy non-increase of the exact cycle', **bound})
+            for cex in st.cex:
+                m = cex['model']
+                gv = lambda nm: str(F(sx.model_value(m, z3.Real(nm))))
+                w = {'nf': nf, 'nc': nc, 'inds_f': inf_, 'inds_c': inc, 'P': [[str(F(sx._numval(z3.simplify(lift(v))))) if isinstance(v, Sym) else str(v) for v in row] for row in interp_P(nf, nc)],
+                     'L': [[gv('l_%d_%d' % (i, j)) if j <= i else '0' for j in range(nf)] for i in range(nf)], 'xs': [gv('xs_%d' % i) for i in range(nf)], 'e': [gv('e_%d' % i) for i in range(nf)], 'kind': 'energy-cycle'}
+                r = realbuild.run_real(REPLAY_ENERGY, w, only=[])
+                run.report('local_mg_step:energy', '%s (%s): %s' % (cex['name'], bound, r['bad']), w, r['reproduced'])
     if not run.args.no_canaries and run.want('gs'):
         src_cy = srcload.read('pyiga/relaxation_cy.pyx'); src_py = srcload.read('pyiga/solvers.py')
         def canary(name, pat, rep, where, harness):
@@ -453,6 +529,13 @@ def main():
         canary('dense: backward not reversed', "            indices = list(reversed(indices))", "            indices = list(indices)", 'py',
                lambda c2, n2: gs_harness(c2, n2, 3, full, 'backward', 1, None, 'dense'))
         canary('iterative_solve: stops on absolute residual', 'if res / res0 < tol:', 'if res < tol:', 'py', lambda c2, n2: iterative_harness(n2, 2, 2, True, False))
+        if run.want('localmg'):
+            pat = 'x1 += P.dot(step(lv-1, np.zeros_like(r_c), r_c))'
+            if pat in src_py:
+                cy2, ns2 = load_code(py_transform=lambda t: t.replace(pat, 'x1 += 3 * P.dot(step(lv-1, np.zeros_like(r_c), r_c))', 1))
+                st = sx.explore(localmg_energy_harness(ns2, 2, 1, [1], [0]), timeout_ms=60000, lin_relax=True)
+                run.canary('local multigrid: coarse-grid correction over-relaxed by 3 (fixed point kept, energy increases)', bool(st.cex))
+            else: run.canary('local multigrid: coarse-grid correction over-relaxed by 3', False, skipped=True)
     run.finish()
 
 
